@@ -33,8 +33,9 @@ JInt(neg, mag) == [k |-> "int", neg |-> neg, v |-> mag]
 JStr(s) == [k |-> "str", v |-> s]
 JBool(b) == [k |-> "bool", v |-> b]
 JNull == [k |-> "null"]
-JList(s) == [k |-> "list", v |-> s]
-JDict(s) == [k |-> "dict", v |-> s]
+\* (s \o <<>> makes TLC evaluate a lazily defined sequence once instead of at every access)
+JList(s) == [k |-> "list", v |-> s \o <<>>]
+JDict(s) == [k |-> "dict", v |-> s \o <<>>]
 
 \* structural equality that never compares values of different kinds
 RECURSIVE JEq(_, _)
@@ -62,7 +63,7 @@ HexVal(c) == IF c >= 48 /\ c <= 57 THEN c - 48
              ELSE IF c >= 65 /\ c <= 70 THEN c - 55
              ELSE 0 - 1
 IsHex(s) == Len(s) % 2 = 0 /\ \A i \in 1..Len(s) : HexVal(s[i]) >= 0
-UnHex(s) == [i \in 1..(Len(s) \div 2) |-> HexVal(s[2 * i - 1]) * 16 + HexVal(s[2 * i])]
+UnHex(s) == [i \in 1..(Len(s) \div 2) |-> HexVal(s[2 * i - 1]) * 16 + HexVal(s[2 * i])] \o <<>>
 Has0x(s) == Len(s) >= 2 /\ s[1] = 48 /\ s[2] = 120
 Hex0x(b) == <<48, 120>> \o HexOf(b)
 
